@@ -64,6 +64,10 @@ def generate(rng, tier):
                   'dist-change 0 12@3 -', 'dist-put 0 3 cc', 'end']); idx += 1
     for _ in range(dict(quick=3, thorough=60, search=8)[tier]):
         cases.append(gen_dist(rng.fork(), idx)); idx += 1
+    cases.append(['case %d cluster' % idx, 'nodes 4', 'put 1 5 aa', 'put 2 6 bb', 'put 3 7 cc', 'poll-start 0 200', 'poll-change 0 - 11@1,12@2',
+                  'poll-change 0 12@2 12@3', 'poll-wait 0 1500', 'read 0', 'end']); idx += 1
+    for _ in range(dict(quick=6, thorough=150, search=20)[tier]):
+        cases.append(gen_poll(rng.fork(), idx)); idx += 1
     # full stack: two REAL nodes with the real store extension; node 2 leaves (its RPC server stays reachable); once node 1's
     # membership says so, a Consistency::None write of node 1 must not be sent to it any more (about 20 s per case)
     for _ in range(dict(quick=1, thorough=3, search=1)[tier]):
@@ -106,8 +110,41 @@ def gen_dist(rng, idx):
     return lines
 
 
+def gen_poll(rng, idx):
+    """consumer side, the poller: the REAL replication cycle service of node 0 (hook) is handed membership changes (all within
+    its initial wait, so its first tick drains them in order) and then runs a few ticks; node 0 must end up holding the
+    documents of exactly the nodes behind the members live after the last change"""
+    lines = ['case %d cluster' % idx, 'nodes 4']
+    for i in (1, 2, 3):
+        for k in range(rng.range(1, 2)):
+            lines.append('put %d %d %02x' % (i, 10 * i + k, rng.below(256)))
+    lines.append('poll-start 0 %d' % rng.choice([150, 200, 300]))
+    members = {}
+    for _ in range(rng.range(1, 4)):
+        k = rng.below(6)
+        left, joined = [], []
+        free = [x for x in (1, 2, 3) if x not in members.values()]
+        if k == 0 and members and free:                      # address change of a live member delivered as ONE change
+            mid = rng.choice(sorted(members)); new = rng.choice(free)
+            left.append('%d@%d' % (mid, members[mid])); joined.append('%d@%d' % (mid, new)); members[mid] = new
+        elif k == 1 and members:                             # leave
+            mid = rng.choice(sorted(members)); left.append('%d@%d' % (mid, members.pop(mid)))
+        elif k == 2 and members:                             # leave and rejoin at the same address in one change
+            mid = rng.choice(sorted(members)); left.append('%d@%d' % (mid, members[mid])); joined.append('%d@%d' % (mid, members[mid]))
+        elif free:                                           # join (possibly together with a leave of another member)
+            mid = rng.choice([m for m in (11, 12, 13, 14) if m not in members]); new = rng.choice(free)
+            if members and rng.chance(1, 3):
+                other = rng.choice(sorted(members)); left.append('%d@%d' % (other, members.pop(other)))
+            joined.append('%d@%d' % (mid, new)); members[mid] = new
+        else:
+            continue
+        lines.append('poll-change 0 %s %s' % (','.join(left) or '-', ','.join(joined) or '-'))
+    lines += ['poll-wait 0 1500', 'read 0', 'end']
+    return lines
+
+
 def augment(case, impl):
-    return [l + ' ts=' + o.split('ts=')[1].split()[0] if l.startswith('dist-put') and 'ts=' in o else l for l, o in zip(case, impl)]
+    return [l + ' ts=' + o.split('ts=')[1].split()[0] if l.startswith(('dist-put', 'put ')) and 'ts=' in o else l for l, o in zip(case, impl)]
 
 
 def canon(line, out):
@@ -130,8 +167,25 @@ def oracle(case, impl):
     """distributor cases: a write reaches exactly the nodes at the addresses of the current members"""
     bad = []
     members = {}
+    pmembers, docs_at = {}, {}
     for line, out in zip(case, impl):
         t = line.split()
+        if t[0] == 'put' and len(t) >= 3 and t[1].isdigit():
+            docs_at.setdefault(int(t[1]), []).append(int(t[2]))
+        if t[0] == 'poll-change':
+            for m in ([] if t[2] == '-' else t[2].split(',')):
+                mid, at = m.split('@')
+                if pmembers.get(int(mid)) == int(at): del pmembers[int(mid)]
+            for m in ([] if t[3] == '-' else t[3].split(',')):
+                mid, at = m.split('@'); pmembers[int(mid)] = int(at)
+        if t[0] == 'read' and any(l.startswith('poll-start') for l in case) and out.startswith('set E'):
+            held = set(int(x.split(':')[0]) for x in out.split(' D ')[0][len('set E '):].split(',') if ':' in x)
+            for node, ids in docs_at.items():
+                for d in ids:
+                    if node in pmembers.values() and d not in held:
+                        bad.append('%s: node %d is behind a live member but the poller never fetched its document %d' % (line, node, d))
+                    if node not in pmembers.values() and node != int(t[1]) and d in held:
+                        bad.append('%s: document %d of node %d was fetched although no live member is at that node' % (line, d, node))
         if line == 'leave' and canon(line, out) != 'full safe':
             bad.append('a member that left is still replicated to by the store\'s distributor (%s)' % out)
         if line == 'rejoin' and canon(line, out) != 'full safe':
